@@ -148,6 +148,10 @@ def _c07(tier, seed):
     return [
         {"engine": "bounds", "args": [], "cases": 1, "shards": N, "timeout": 3000},
         {"engine": "mix", "args": [], "cases": 8000 if tier == "quick" else 200000, "shards": N, "timeout": 3000},
+        # segment-wise (SGL / init-update-finalize) and direct-API calls: every segment, context and key object is guard-placed
+        {"engine": "sgl", "args": [], "cases": 1500 if tier == "quick" else 60000, "shards": N, "timeout": 3000},
+        {"engine": "abi", "args": [], "cases": 12 if tier == "quick" else 200, "shards": N, "timeout": 3000},
+        {"engine": "entry", "args": [], "cases": 4000 if tier == "quick" else 200000, "shards": N, "timeout": 3000},
         # the library's C code (3GPP C kernels, ChaCha20-Poly1305/SM4-GCM glue, manager) under ASan+UBSan: overflows of the
         # library's own stack/static buffers that guard pages around *caller* objects cannot see
         {"engine": "bounds", "args": [], "cases": 1, "shards": N, "flavour": "asan", "env": ASAN_ENV, "timeout": 3000},
@@ -167,7 +171,7 @@ PLANS["C07"] = {
              "key structure at its documented size) ends/starts at a PROT_NONE page with canaries on the mapped "
              "side; plus schedule-fuzzer episodes with the same placement. Oracles: page faults classified per "
              "object, canary damage, source snapshot, reference comparison. distinct = distinct (variant, suite, "
-             "direction, len mod 16, length class, IV/tag/AAD class, in-place, placement) tuples."),
+             "direction, len mod 16, length class, IV/tag/AAD class, in-place, placement) tuples. Also run with the same monitors: the SGL / init-update-finalize partition engine (every segment its own guard-placed object), the direct-API sweep and the entry-point engine."),
     "floors": {"quick": {"guarded_jobs": 300000, "jobs_checked": 300000}},
     "assumptions": ["page-granular detection for reads inside the mapped slack is limited to the canary span "
                     "(writes) -- reads that stay within the same page are only seen when the object ends at the "
